@@ -350,6 +350,51 @@ def run(model: RepoModel, rep, tier: str):
     rep.rule("C15.R4", "every object owned by Loader whose class has export() is collected by the export/restore driver; "
                        "every exporting class can restore", min_instances=40)
     rep.rule("C15.R5", "no exception handler on the export path swallows a failed write silently", min_instances=1)
+    rep.rule("C15.R6", "rows are filed under the key they are saved with: a loader that looks items up by a key column stamps that column "
+                       "with the save key unconditionally when flattening (a row that already carries another value must not keep it)", 1)
+    from ..model import enclosing_map as _encmap
+    lmod = model.module(FILE)
+    n_stamp = 0
+    for c_ in lmod.classes.values():
+        q_ = c_.methods.get("query_flattened_item_when_loading")
+        fl_ = c_.methods.get("flatten_item_when_saving")
+        if q_ is None or fl_ is None or len(fl_.params) < 2:
+            continue
+        cols = {const_str(x.args[0]) for x in walk_no_nested(q_.node) if isinstance(x, ast.Call) and isinstance(x.func, ast.Attribute)
+                and x.func.attr.startswith("query_index_column_value") and x.args and const_str(x.args[0])}
+        keyp = fl_.params[1]
+        enc_ = _encmap(fl_.node)
+        for n in walk_no_nested(fl_.node):
+            if isinstance(n, ast.Assign) and isinstance(n.targets[0], ast.Subscript) and const_str(n.targets[0].slice) in cols \
+                    and isinstance(n.value, ast.Name) and n.value.id == keyp:
+                n_stamp += 1
+                col = const_str(n.targets[0].slice)
+                dvar = n.targets[0].value.id if isinstance(n.targets[0].value, ast.Name) else None
+                cur, conds = n, []
+                while id(cur) in enc_:
+                    cur = enc_[id(cur)]
+                    if isinstance(cur, ast.If):
+                        conds.append(cur.test)
+                key = f"{FILE}::{c_.name}.flatten_item_when_saving::column `{col}` stamped with the save key"
+
+                def always_true(t) -> bool:
+                    # `not hasattr(<the row dict>, "...")`: a dict has no such attribute, the test is constantly true
+                    return isinstance(t, ast.UnaryOp) and isinstance(t.op, ast.Not) and isinstance(t.operand, ast.Call) \
+                        and call_name(t.operand) == "hasattr" and t.operand.args and isinstance(t.operand.args[0], ast.Name) and t.operand.args[0].id == dvar
+                real = [t for t in conds if not always_true(t)]
+                if not real:
+                    rep.holds("C15.R6", key, FILE, n.lineno, "unconditional" + (" (guard `not hasattr(dict, ...)` is constantly true)" if conds else ""))
+                else:
+                    rep.violation("C15.R6", key, FILE, n.lineno,
+                                  f"{c_.name} stamps `{col}` only when `{norm(real[0])}`: a row that already carries a `{col}` of its own (a node "
+                                  f"cloned from another unit) keeps it, is exported under that value and -- since items are read back with "
+                                  f"query_index_column_value(\"{col}\", key) -- disappears from the unit it was saved for and shows up in another")
+    if n_stamp == 0:
+        raise AnalysisError("no key-column stamp found in any flatten_item_when_saving")
+    rep.rule("C15.R7", "storage keys derived from a hash separate what equality separates: CallSite.__hash__ (written to the hash_id column "
+                       "and used as the phase-3 item id) involves every field __eq__ compares", 2)
+    from .c09 import check_callsite_identity
+    check_callsite_identity(model, rep, "C15.R7")
 
     # ------------------------------------------------------------------ R1
     # role: the cache consulted first by the reader
@@ -936,6 +981,9 @@ def _mut_count_bundles(src):
 
 
 MUTANTS = [
+    ("unit-key-stamp-conditional", FILE,
+     lambda src: __import__("sa.mutate", fromlist=["x"]).text_replace(src, '            if not hasattr(to_dict_result, "unit_id"):\n                to_dict_result["unit_id"] = unit_id', '            if "unit_id" not in to_dict_result:\n                to_dict_result["unit_id"] = unit_id'),
+     "column `unit_id` stamped with the save key"),
     ("save-reuses-active-item", FILE, _mut_reuse_active_item, "flattened_item replaced"),
     ("restore-counts-bundles", FILE, _mut_count_bundles, "bundle counter restored"),
     ("save-no-evict", FILE, _mut_save_no_evict, "GeneralLoader.save"),
